@@ -189,6 +189,41 @@ fn note_probes(rep: &mut RunReport, hr: &HistRun) {
     }
 }
 
+/// f conflicts with the same losing content L three times; after the first time the copy of L is
+/// edited (O1), after the second time the copy is set back to O1 and the displaced copy edited
+/// (O2). The third conflict must keep L, O1 and O2.
+pub fn repeated_conflict_history(r: &mut Rng) -> History {
+    let mut h = gen_history(r, 3, false);
+    h.allow_clash = false;
+    h.ncontents = 8;
+    h.npaths = h.npaths.max(2);
+    // the loser must be the content with the smallest hash
+    let mut ids: Vec<u32> = (0..8).collect();
+    ids.sort_by_key(|c| b3(&content_of(*c, &h)));
+    let (l, rest) = (ids[0], &ids[1..]);
+    let (w1, w2, w3, o1, o2) = (rest[0], rest[1], rest[2], rest[3], rest[4]);
+    let f = PathSel::Base(0);
+    let wr = |side: u8, path: &PathSel, content: u32| Step::Write { side, path: path.clone(), content };
+    h.steps = vec![
+        wr(0, &f, l),
+        wr(1, &f, w1),
+        Step::Bisync,
+        wr(0, &PathSel::Conflict(0), o1),
+        Step::Bisync,
+        wr(0, &f, l),
+        wr(1, &f, w2),
+        Step::Bisync,
+        wr(0, &PathSel::Conflict(0), o1),
+        wr(0, &PathSel::Conflict(1), o2),
+        Step::Bisync,
+        wr(0, &f, l),
+        wr(1, &f, w3),
+        Step::Bisync,
+        Step::Bisync,
+    ];
+    h
+}
+
 pub struct C02;
 
 impl Check for C02 {
@@ -221,7 +256,12 @@ impl Check for C02 {
     fn generate(&self, seed: u64, _tier: Tier) -> Sc {
         let mut r = Rng::new(seed);
         let with_faults = r.below(4) == 0;
-        let hist = gen_history(&mut r, 14, with_faults);
+        let mut hist = gen_history(&mut r, 14, with_faults);
+        // one history in 150: the SAME conflict three times over, the conflict-copies edited in
+        // between — so that keeping the displaced copies has to go two names deep
+        if r.below(150) == 0 {
+            hist = repeated_conflict_history(&mut r);
+        }
         Sc {
             hist,
             cfg_seed: r.next_u64(),
